@@ -217,12 +217,13 @@ def split_write_shape(SplitWriter):
     return ge, steps
 
 
-def rotation_formats(PathTemplateWriter):
+def rotation_formats(PathTemplateWriter, stamp_only=False):
     """(strftime spec of the rotation stamp, format of the rotated file name, format with a counter or None)
     from rotate_existing_file.  The counter format is reported only for the exact loop
         counter = 0
         while os.path.exists(dst): counter += 1; dst = os.path.join(src_dir, "<...{counter}...>".format(**locals()))
-    placed before the os.rename call."""
+    placed before the os.rename call.  stamp_only: do not look at the loop (used by the check's harness, which only
+    needs the stamp spec to render its patched clock)."""
     fn = PathTemplateWriter.rotate_existing_file
     node = _fdef(fn)
     stamp_spec = None
@@ -257,6 +258,8 @@ def rotation_formats(PathTemplateWriter):
         raise Unsupported("no `stamp = ...` assignment in %s" % fn.__qualname__)
     if name_fmt is None:
         raise Unsupported("no rotated-name format mentioning {stamp} in %s" % fn.__qualname__)
+    if stamp_only:
+        return stamp_spec, name_fmt, None
 
     def is_exists_dst(t):
         return (isinstance(t, ast.Call) and len(t.args) == 1 and isinstance(t.args[0], ast.Name) and t.args[0].id == "dst"
